@@ -44,35 +44,10 @@ def _cvc5(s, timeout_ms):
 
 
 def _sign_match(ob):
+    from . import signs
     op, a, b = ob.rel
     t = T.lift(a) - b if not (T.is_num(b) and b == 0) else T.lift(a)
-    c = ob.ctx
-    for q in ob.sign_hints:
-        q = T.lift(q)
-        p = T.eq_poly(t, q)
-        if p is None:
-            continue
-        saved = T._CTX[0]
-        T.set_ctx(c)
-        try:
-            if T._quick_differs(c, p):
-                continue
-        finally:
-            T.set_ctx(saved)
-        r = cert.prove_eq(p, list(ob.hyps), c.order, timeout=20, facts=ob.facts + ob.pc)
-        if r['status'] != 'discharged':
-            continue
-        s = z3.Solver()
-        s.set('timeout', 5000)
-        for f in ob.facts:
-            s.add(f)
-        for f in ob.pc:
-            s.add(f)
-        neg = {'>': q.z <= 0, '>=': q.z < 0, '!=': q.z == 0}[op]
-        s.add(neg)
-        if s.check() == z3.unsat:
-            return 'equal to a closed form named by the contract (certificate), whose sign z3 proves'
-    return None
+    return signs.prove_sign(ob.ctx, ob.facts, ob.pc, ob.hyps, t, op, ob.sign_hints, ob.signfacts)
 
 
 def model_env(m):
@@ -106,7 +81,7 @@ def discharge(ob, allow_cvc5=True):
                 res.update(status='discharged', backend='assumption', detail='syntactically a known fact')
                 return _fin(res, t0)
         # 0a. sign obligations: match against a closed form named by the contract
-        if ob.rel is not None and ob.sign_hints:
+        if ob.rel is not None and (ob.sign_hints or ob.signfacts) and ob.kind == 'smt':
             r = _sign_match(ob)
             if r is not None:
                 res.update(status='discharged', backend='certificate+z3', detail=r)
